@@ -158,6 +158,31 @@ async function readcomp_case(c) {
     return {base: base, bulk: bulk, executions: executions, chunks: chunks_delivered, ndiff: ndiff, diffs: diffs};
 }
 
+async function readcuts_case(c) {
+    // deviation-bounded delivery exploration for longer inputs: every way to cut the bytes with at most c.maxcuts cut points
+    let data = Buffer.from(c.hex, 'hex');
+    let n = data.length;
+    let base = await read_case(Object.assign({}, c, {mode: 'stream', pieces: n ? [c.hex] : []}));
+    let bulk = await read_case(Object.assign({}, c, {mode: 'bulk'}));
+    let basekey = result_key(base);
+    let diffs = [], ndiff = 0, executions = 0, chunks = 0;
+    let cuts = [];
+    async function rec(start_from, depth) {
+        if (depth > 0) {
+            let pts = [0].concat(cuts).concat([n]);
+            let pieces = [];
+            for (let i = 0; i + 1 < pts.length; i++) pieces.push(data.subarray(pts[i], pts[i + 1]).toString('hex'));
+            let r = await read_case(Object.assign({}, c, {mode: 'stream', pieces: pieces}));
+            executions += 1; chunks += pieces.length;
+            if (result_key(r) !== basekey) { ndiff += 1; if (diffs.length < 3) diffs.push({pieces: pieces, result: r}); }
+        }
+        if (depth == c.maxcuts) return;
+        for (let p = start_from; p < n; p++) { cuts.push(p); await rec(p + 1, depth + 1); cuts.pop(); if (ndiff > 20) return; }
+    }
+    await rec(1, 0);
+    return {base: base, bulk: bulk, executions: executions, chunks: chunks, ndiff: ndiff, diffs: diffs};
+}
+
 async function write_case(c) {
     let ms = new MemWritable();
     let out = {};
@@ -275,6 +300,7 @@ async function handle(c) {
         }
         case 'read': return await read_case(c);
         case 'readcomp': return await readcomp_case(c);
+        case 'readcuts': return await readcuts_case(c);
         case 'lasso': return await lasso_case(c);
         case 'query_csv': return await guarded(() => query_csv_case(c), HANG_MS);
         case 'write': return await write_case(c);
